@@ -124,3 +124,13 @@ def mode_rows(K, PROP, A, stem, kinds, exact_fn, cls, forms=FORMS, retA=None, na
             continue
         out += core.g_row(K, PROP, fid, reps(A, kinds, form_expect(form, A, exact_fn, cls, K.debug, retA)))
     return out
+
+
+def unchecked_expect(A, exact_fn):
+    """unchecked_x: the exact result whenever it is representable (overflow is undefined behaviour: unconstrained)"""
+    def f(W, env):
+        args = [env[i].v if isinstance(env[i], (BN, PI)) else env[i] for i in sorted(env)]
+        r = exact_fn(W, *args)
+        lo, hi = rng(W, A)
+        return ("val", W.wrap(A, r)) if lo <= r <= hi else ("any",)
+    return f
